@@ -40,8 +40,62 @@ fn varint(v: i32) -> Vec<u8> {
     out
 }
 
-/// Build a fault-free reply for layout `l` (one element of the exported table).
+/// Largest datagram a conforming server sends for this entry: protocols with a multi-datagram mechanism keep each
+/// datagram within an MTU-sized packet; the others send one datagram whatever its size (the format's own limits apply:
+/// Mindustry's 500-byte buffer, JC2M's single GameSpy 3 packet).
+pub fn datagram_limit(entry: &str) -> usize {
+    match entry {
+        "gs1" => 1000,
+        "unreal2" => 1000,
+        "gs3" | "jc2m" => 2000,
+        "mindustry" => 500,
+        _ => 65507,
+    }
+}
+
+/// Build a fault-free reply for layout `l` whose datagrams respect `datagram_limit`: more parts / datagrams where the
+/// protocol has them, shorter strings otherwise. None: the shape cannot be sent within the limit (e.g. 64 long names in
+/// one JC2M packet).
 pub fn build(rng: &mut StdRng, l: &Value) -> Built {
+    let entry = l["layout"]["entry"].as_str().unwrap().to_string();
+    let limit = datagram_limit(&entry);
+    let outer = STRCLASS.with(|s| s.borrow().clone());
+    let mut l2 = l.clone();
+    for attempt in 0 .. 12 {
+        if outer.is_empty() {
+            match attempt {
+                0 | 1 => {}
+                2 ..= 5 => set_strclass("plain"),
+                _ => set_strclass("empty"),
+            }
+        }
+        let b = build_raw(rng, &l2);
+        set_strclass(&outer);
+        let too_big = !b.tcp && b.batches.iter().flatten().any(|d| d.len() > limit);
+        if !too_big {
+            return b;
+        }
+        // more parts / datagrams where the protocol allows it
+        match entry.as_str() {
+            "gs1" => {
+                let p = l2["layout"]["parts"].as_u64().unwrap_or(1);
+                l2["layout"]["parts"] = json!(p * 2 + 1);
+            }
+            "unreal2" => {
+                if l2["layout"].get("datagrams").is_some() {
+                    let p = l2["layout"]["datagrams"].as_u64().unwrap_or(1);
+                    l2["layout"]["datagrams"] = json!(p * 2 + 1);
+                }
+            }
+            _ => {}
+        }
+    }
+    let b = build_raw(rng, &l2);
+    set_strclass(&outer);
+    b
+}
+
+fn build_raw(rng: &mut StdRng, l: &Value) -> Built {
     let lay = &l["layout"];
     let entry = lay["entry"].as_str().unwrap();
     let fixed = HashMap::new();
@@ -73,7 +127,7 @@ pub fn build(rng: &mut StdRng, l: &Value) -> Built {
                 bounds.push((start, end));
                 idx += n;
             }
-            let parts = lay["parts"].as_u64().unwrap() as usize;
+            let parts = (lay["parts"].as_u64().unwrap() as usize).min(bounds.len().max(1));
             let qid: u32 = rng.gen_range(1 .. 100);
             let mut out = Vec::new();
             for p in 0 .. parts {
@@ -180,6 +234,7 @@ pub fn build(rng: &mut StdRng, l: &Value) -> Built {
             let k = lay["datagrams"].as_u64().unwrap() as usize;
             let deal = |head: u8, entries: &[(usize, usize)]| -> Vec<Vec<u8>> {
                 let mut out = Vec::new();
+                let k = k.min(entries.len().max(1));
                 for d in 0 .. k {
                     let lo = d * entries.len() / k;
                     let hi = (d + 1) * entries.len() / k;
